@@ -78,8 +78,8 @@ def run(ctx):
         ctx.ob("E5.transcript", f.key + "/reduce", ok_red, "challenge scalar = scalar_from_bytes_wide(challenge_bytes output)", where=where(f))
     if len(helpers) == 2 and not seqs:
         (g1, s1), (g2, s2) = helpers[pr.key], helpers[vf.key]
-        r1 = [_arg_roles(x) for x in s1.args]
-        r2 = [_arg_roles(x) for x in s2.args]
+        r1 = [_arg_roles(x) for x in s1.args] if s1 is not None else []
+        r2 = [_arg_roles(x) for x in s2.args] if s2 is not None else []
         ctx.ob("E3.transcript", "prover==verifier", g1 is g2 and [len(x) for x in r1] == [len(x) for x in r2], "prover and verifier derive the challenge through the same helper `%s` with argument lists of the same shape" % g1.key, where=where(pr), weak=True)
     if len(seqs) == 2:
         a, b = list(seqs.values())
@@ -119,7 +119,7 @@ def run(ctx):
                         hit = True
             good = good and hit
         ctx.ob("E4.accept", vf.key, good, "Ok(()) only when challenge == scalar_from_bytes_wide(transcript challenge)", where=where(vf))
-        for kind, subj in (("is_identity", ("param", "pk")), ("is_identity", ("re", r"unwrap_or_else\(Pgenerator")), ("is_identity", ("param", "c1")), ("is_identity", ("param", "c2")), ("is_zero", ("param", "message_proof")), ("is_zero", ("param", "blinder_proof")), ("is_zero", ("param", "challenge"))):
+        for kind, subj in (("is_identity", ("param", "pk")), ("is_identity", ("opt-param", "generator")), ("is_identity", ("param", "c1")), ("is_identity", ("param", "c2")), ("is_zero", ("param", "message_proof")), ("is_zero", ("param", "blinder_proof")), ("is_zero", ("param", "challenge"))):
             R.check_result_guard(ctx, "E4.result", P, vf.key, kind, subj)
     # verify_and_decrypt
     vd = ctx.need_fn("E4.vad", "BlsElGamal::verify_and_decrypt")
